@@ -30,6 +30,23 @@ def _decode_sites(fn, g, mf, sel=lambda n: True):
     return out
 
 
+def _uri_compared(fn_node, tests, dc, res):
+    """The decrypted URI (first element of the tuple the decode() result is unpacked into) is compared for inequality with the URI
+    expression that was given to decode(); operand order and local names do not matter. Returns the test node or None."""
+    given = norm.text(dc.args[1])
+    got = None
+    for st in ast.walk(fn_node):
+        if isinstance(st, ast.Assign) and st.value is dc and isinstance(st.targets[0], ast.Tuple) and st.targets[0].elts:
+            got = norm.text(st.targets[0].elts[0])
+    if got is None:
+        return None
+    for n in tests:
+        at = set(norm.atoms(n.ast, True, res))
+        if at in ({("eq", got, ("e", given), False)}, {("eq", given, ("e", got), False)}):
+            return n
+    return None
+
+
 def rule_no_delivery_on_failure(ctx):
     ctx.rule("C20.1-no-delivery-on-failure")
     om = get_onmessage(ctx)
@@ -49,10 +66,11 @@ def rule_no_delivery_on_failure(ctx):
     hs = [m for m, lab in dn.succ if lab and lab[0] == "exc"]
     ok = bool(hs) and all(not g.path_exists(h, D, avoid=lambda x: x.kind == "for") for h in hs)
     ctx.ob("EVENT: a payload that fails to decode is not delivered", ok, "handler reachable from the decode exception handler", om.fn.loc(dc))
-    cmpn = [n for n in nodes if n.kind == "test" and set(norm.atoms(n.ast, True, res)) == {("eq", "decoded_topic", ("e", "topic"), False)}]
+    _c = _uri_compared(om.fn.node, [n for n in nodes if n.kind == "test"], dc, res)
+    cmpn = [_c] if _c is not None else []
     ok = len(cmpn) == 1 and not any(g.path_exists(m, D, avoid=lambda x: x.kind == "for") for m, lab in cmpn[0].succ if lab and lab[0] == "T")
     ctx.ob("EVENT: decoded topic differing from the envelope topic is not delivered", ok, "URI comparison missing or handler reachable on mismatch", om.fn.loc())
-    ctx.ob("EVENT: the compared URI is the one given to decode", norm.text(dc.args[1]) == "topic", f"decode({norm.text(dc.args[1])})", om.fn.loc(dc))
+    ctx.ob("EVENT: the compared URI is the one given to decode", bool(cmpn) and "topic" in norm.text(dc.args[1]), f"decode({norm.text(dc.args[1])})", om.fn.loc(dc))
     # on the encrypted path delivery passes the comparison
     enc = [n for n in nodes if n.kind == "test" and norm.atoms(n.ast, True, res) == [("truth", "msg.enc_algo", None, True)]]
     ok = len(enc) == 1 and bool(cmpn) and all(not g.path_exists(m, D, avoid=lambda x: x is cmpn[0] or x.kind == "for") for m, lab in enc[0].succ if lab and lab[0] == "T")
@@ -62,8 +80,8 @@ def rule_no_delivery_on_failure(ctx):
     dec = _decode_sites(om.fn, g, mf, lambda n: n in nodes)
     ctx.require(len(dec) == 1, "RESULT: decode site not found")
     dn, dc = dec[0]
-    ctx.ob("RESULT: the compared URI is the one given to decode", norm.text(dc.args[1]) == "proc" and
-           any(n.kind == "test" and set(norm.atoms(n.ast, True, res)) == {("eq", "decrypted_proc", ("e", "proc"), False)} for n in nodes), "comparison changed", om.fn.loc(dc))
+    ctx.ob("RESULT: the compared URI is the one given to decode", _uri_compared(om.fn.node, [n for n in nodes if n.kind == "test"], dc, res) is not None,
+           "comparison changed", om.fn.loc(dc))
     errs = [n for n in nodes if n.kind == "stmt" and isinstance(n.ast, ast.Assign) and norm.text(n.ast.targets[0]) == "enc_err" and norm.text(n.ast.value) != "None"]
     kinds = sorted(norm.text(n.ast.value.args[0]).split(".")[-1] for n in errs if isinstance(n.ast.value, ast.Call))
     ctx.ob("RESULT: no-codec, decode failure and URI mismatch each record an ENC_* error", kinds == ["ENC_DECRYPT_ERROR", "ENC_NO_PAYLOAD_CODEC", "ENC_TRUSTED_URI_MISMATCH"], f"{kinds}", om.fn.loc())
@@ -80,8 +98,8 @@ def rule_no_delivery_on_failure(ctx):
     dec = _decode_sites(om.fn, g, mf, lambda n: n in nodes)
     ctx.require(len(dec) == 1, "INVOCATION: decode site not found")
     dn, dc = dec[0]
-    ctx.ob("INVOCATION: the compared URI is the one given to decode", norm.text(dc.args[1]) == "proc" and
-           any(n.kind == "test" and set(norm.atoms(n.ast, True, res)) == {("eq", "decrypted_proc", ("e", "proc"), False)} for n in nodes), "comparison changed", om.fn.loc(dc))
+    ctx.ob("INVOCATION: the compared URI is the one given to decode", _uri_compared(om.fn.node, [n for n in nodes if n.kind == "test"], dc, res) is not None,
+           "comparison changed", om.fn.loc(dc))
     call = [(n, c) for n in nodes for c in node_calls(n) if call_name(c) == "txaio.as_future" and c.args and norm.text(c.args[0]) == "endpoint.fn"]
     ok = len(call) == 1 and ("truth", "enc_err", None, False) in mf.at(call[0][0])
     ctx.ob("INVOCATION: endpoint invoked only when decryption succeeded", ok, "endpoint called although the payload could not be trusted", om.fn.loc())
@@ -96,8 +114,8 @@ def rule_no_delivery_on_failure(ctx):
     g2, mf2, res2 = om.an.get(fn)
     dec = _decode_sites(fn, g2, mf2)
     ctx.require(len(dec) == 1, "_exception_from_message: decode site not found")
-    ctx.ob("ERROR: the compared URI is the one given to decode", norm.text(dec[0][1].args[1]) == "msg.error" and
-           any(n.kind == "test" and set(norm.atoms(n.ast, True, res2)) == {("eq", "decrypted_error", ("e", "msg.error"), False)} for n in g2.stmt_nodes()), "comparison changed", fn.loc())
+    ctx.ob("ERROR: the compared URI is the one given to decode", norm.text(dec[0][1].args[1]).endswith(".error") and
+           _uri_compared(fn.node, [n for n in g2.stmt_nodes() if n.kind == "test"], dec[0][1], res2) is not None, "comparison changed", fn.loc())
     ret = [n for n in g2.stmt_nodes() if n.kind == "stmt" and isinstance(n.ast, ast.Return) and norm.text(n.ast.value) == "enc_err"]
     ctors = [n for n in g2.stmt_nodes() for c in node_calls(n) if (isinstance(c.func, ast.Name) and c.func.id == "ecls") or call_name(c) == "exception.ApplicationError"]
     ok = len(ret) == 1 and ("truth", "enc_err", None, True) in mf2.at(ret[0]) and all(("truth", "enc_err", None, False) in mf2.at(n) for n in ctors)
@@ -172,11 +190,36 @@ def rule_direction(ctx):
     ctx.ob("no other encode/decode sites", set(found) == set(expected), f"unexpected: {sorted(set(found) - set(expected))}", om.fn.loc())
     kr = ctx.program.cls("autobahn.wamp.cryptobox.KeyRing")
     gb = kr.methods["_get_box"]
-    g2, mf2, res2 = an.get(gb)
-    rets = [n for n in g2.stmt_nodes() if n.kind == "stmt" and isinstance(n.ast, ast.Return) and n.ast.value is not None and "box" in norm.text(n.ast.value)]
-    ok = len(rets) == 2 and all((norm.text(n.ast.value) == "key.originator_box") == (norm.is_truthy_known(mf2.at(n), "is_originating") is True) and
-                                (norm.text(n.ast.value) == "key.responder_box") == (norm.is_truthy_known(mf2.at(n), "is_originating") is False) for n in rets)
-    ctx.ob("_get_box: originating -> originator box, otherwise responder box", ok, "box selection changed", gb.loc())
+    # cell-wise over (direction, a key for the URI prefix exists, a default key exists, exact matching requested)
+    from ..core.tiny import Tiny, Sym, TinyRaise
+    import itertools
+    probs = []
+    try:
+        for orig, has_prefix, has_default, exact in itertools.product((True, False), (True, False), (True, False), (False, True)):
+            pk = Sym("prefix-key", originator_box=Sym("prefix-originator-box"), responder_box=Sym("prefix-responder-box"))
+            dk = Sym("default-key", originator_box=Sym("default-originator-box"), responder_box=Sym("default-responder-box"))
+
+            def lookup(u):
+                if has_prefix:
+                    return pk
+                raise TinyRaise("KeyError")
+            trie = Sym("uri->key", methods={"longest_prefix_value": lookup, "__getitem__": lookup})
+            prm = gb.params()
+            env = {prm[1]: orig, prm[2]: "com.topic", "self._default_key": dk if has_default else None, "self": Sym("keyring")}
+            if len(prm) > 3:
+                env[prm[3]] = exact
+            t = Tiny(env, default_call=lambda f_, a_, k_=None: Sym(f"<{f_}>"))
+            t.env["self._uri_to_key"] = trie if not exact else ({"com.topic": pk} if has_prefix else {})
+            r = t.run([x for x in gb.node.body if not (isinstance(x, ast.Expr) and isinstance(x.value, ast.Constant))])
+            key = pk if has_prefix else (dk if has_default else None)
+            want = None if key is None else key.attrs["originator_box" if orig else "responder_box"]
+            if r[0] != "return" and not (r[0] == "fall" and want is None) or (r[0] == "return" and r[1] is not want):
+                probs.append(f"is_originating={orig}, prefix key {'present' if has_prefix else 'absent'}, default key {'present' if has_default else 'absent'}, exact={exact}: "
+                             f"gives {r[1] if r[0] == 'return' else r}, expected {want}")
+        ctx.ob("_get_box: the key of the longest matching URI prefix, else the default key, else none; originating -> originator box, otherwise responder box [16 cells]",
+               not probs, "; ".join(probs[:2]), gb.loc())
+    except AnalysisError as e:
+        raise AnalysisError(f"[C20.3-direction-flags] KeyRing._get_box outside the modelled subset: {e}")
     key = ctx.program.cls("autobahn.wamp.cryptobox.Key").methods["__init__"]
     boxes = {norm.text(s.targets[0]): norm.text(s.value) for s in walk_no_defs(key.node) if isinstance(s, ast.Assign) and isinstance(s.value, ast.Call) and call_name(s.value) == "Box"}
     ok = boxes.get("self.originator_box") == "Box(self.originator_priv, self.responder_pub)" and boxes.get("self.responder_box") == "Box(self.responder_priv, self.originator_pub)"
@@ -199,9 +242,26 @@ def rule_keyring(ctx):
     ok = len(rets) == 1 and isinstance(rets[0].value, ast.Call) and call_name(rets[0].value) == "EncodedPayload" and norm.text(rets[0].value.args[0]) == "payload_bytes" and \
         [norm.text(a).strip("'\"") for a in rets[0].value.args[1:3]] == ["cryptobox", "json"]
     ctx.ob("encode returns EncodedPayload(ciphertext, 'cryptobox', 'json')", ok, "changed", enc.loc())
-    gets = {norm.text(s.targets[0]): norm.text(s.value) for s in walk_no_defs(dec.node) if isinstance(s, ast.Assign) and isinstance(s.value, ast.Call) and norm.text(s.value.func) == "payload.get"}
-    ok = {k: v.replace('"', "'") for k, v in gets.items()} == {"uri": "payload.get('uri', None)", "args": "payload.get('args', None)", "kwargs": "payload.get('kwargs', None)"}
-    ctx.ob("decode returns the three sealed keys", ok and any(isinstance(s, ast.Return) and norm.text(s.value) == "(uri, args, kwargs)" for s in walk_no_defs(dec.node)), f"{gets}", dec.loc())
+    # as a term: decode returns (sealed['uri'], sealed['args'], sealed['kwargs']) of the decrypted, JSON-decoded dict
+    from ..core.terms import TermEval, show, subterms
+    td = TermEval(ctx.program, dec, inline=lambda c, f: None).run()
+    rd = [o for o in td.outcomes if o.kind == "return"]
+    okd, whyd = False, "decode return changed"
+    if len(rd) == 1 and rd[0].term[0] == "list" and len(rd[0].term) == 4:
+        parts = rd[0].term[1:]
+        bases = set()
+        names = []
+        for pt in parts:
+            if pt[0] == "m" and pt[2] == "get" and pt[3] and pt[3][0][0] == "c" and (len(pt[3]) == 1 or pt[3][1] == ("c", None)):
+                names.append(pt[3][0][1])
+                bases.add(pt[1])
+            elif pt[0] == "idx" and pt[2][0] == "c":
+                names.append(pt[2][1])
+                bases.add(pt[1])
+        sealed = next(iter(bases)) if len(bases) == 1 else None
+        okd = names == ["uri", "args", "kwargs"] and sealed is not None and any(x[0] == "m" and x[2] == "decrypt" for x in subterms(sealed))
+        whyd = f"returns {[show(x)[:60] for x in parts]}"
+    ctx.ob("decode returns the three sealed keys (uri, args, kwargs) of the decrypted payload", okd, whyd, dec.loc())
     op = [c for c in calls_in(dec.node) if norm.text(c.func) == "box.decrypt"]
     ctx.ob("decode opens the ciphertext with the box selected for the envelope URI", len(op) == 1 and norm.text(op[0].args[0]) == "encoded_payload.payload" and
            any(norm.text(c.func) == "self._get_box" and [norm.text(a) for a in c.args] == ["is_originating", "uri"] for c in calls_in(dec.node)), "changed", dec.loc())
